@@ -129,7 +129,7 @@ def litOK : Nat → Schema → TypeRef → Value → Bool
         | "ID", .str _ => true
         | "ID", .int _ => true
         | "ID", _ => false
-        | _, .str s => s != "BAD"          -- harness custom scalar
+        | _, .str s => s != "BAD" && s != "BADRAISE"          -- harness custom scalar (refuses "BAD", raises on "BADRAISE")
         | _, .int _ => true
         | _, .bool _ => true
         | _, _ => false
